@@ -107,6 +107,36 @@ def wide_scenarios(rng, quick):
     return sc
 
 
+def widepair_scenarios(rng, quick):
+    """real-width explicit ranges (two-address constructor) of at most 2^16 elements: at the bottom, at the top (ending at all-ones),
+    across octet carries, single addresses - and the WHOLE address space of HWAddress<1> / HWAddress<2>"""
+    sc = []
+    types = dict(TYPES, hw1=1, hw2=2)
+    big = 1 << (10 if quick else 16)
+    for t, n in sorted(types.items()):
+        bits = 8 * n
+        top = (1 << bits) - 1
+        pairs = [(0, min(top, big - 1)), (max(0, top - big + 1), top), (top, top), (0, 0), (max(0, top - 1), top)]
+        if bits <= 16:
+            pairs += [(0, top), (1, top), (0, top - 1)]             # all of it, and all but one end
+        for _ in range(3 if quick else 12):
+            c = rng.randrange(1, min(big, top) + 1)
+            f = rng.randrange(0, top - c + 2)
+            pairs.append((f, f + c - 1))
+        if bits > 16:
+            for k in (1, 2, n - 1):                                  # ranges that run across a carry into a higher octet
+                edge = (rng.getrandbits(bits) | ((1 << (8 * k)) - 1)) & top
+                f = max(0, edge - rng.randrange(1, 200)); pairs.append((f, min(top, f + rng.randrange(200, 600))))
+        for i, (f, l) in enumerate(sorted(set(pairs))):
+            pr = {f, l, 0, top, (f + l) // 2}
+            for d in (1, 2, 255, 256):
+                pr |= {f - d, l + d, f + d, l - d}
+            pr |= {rng.getrandbits(bits) for _ in range(3)}
+            sc.append({"kind": "widepair", "t": t, "first": tobytes(f, n), "last": tobytes(l, n), "count": l - f + 1, "post": i % 2 == 1,
+                       "probes": [tobytes(x, n) for x in sorted(pr) if 0 <= x <= top]})
+    return sc
+
+
 def widemask_scenarios(rng, quick):
     """real-width ranges from arbitrary masks: every octet of the mask drawn from {00, ff, f0, 0f, seeded}, so that zero octets
     are followed by non-zero ones, plus the all-ones and all-zero masks; probes at and around the two ends"""
@@ -218,7 +248,7 @@ def run(tier):
         s["types"] = text_types(s, i, quick)
     cmps = cmp_scenarios(rng, 48 if quick else 64)
     rts = rt_scenarios(rng, 200 if quick else 6000)
-    wides = wide_scenarios(rng, quick) + widemask_scenarios(rng, quick)
+    wides = wide_scenarios(rng, quick) + widemask_scenarios(rng, quick) + widepair_scenarios(rng, quick)
     # the same loops written with the forward iterator's post-increment: every range of the generator (explicit, prefix- and
     # mask-derived, in all four windows - "top" ends at the all-ones address), the address type rotating
     post = [dict(s, kind="postinc", t=sorted(TYPES)[i % len(TYPES)]) for i, s in enumerate(rg)]
